@@ -6,7 +6,7 @@
  *   rules <hex source> [ext definitions are: "ext <t> <id> <val>" lines before]
  *   data <id> <hex> | datafile <id> <path>
  *   thread <tid> <n-ops> followed by n-ops lines:
- *        scan <did> <mode:mem|file|rmem> <plan> <timeout_s> <repeat>
+ *        scan <did> <mode:mem|file|fd|rmem> <plan> <timeout_s> <repeat>
  *        sdefine <t> <id> <val>
  *   go
  * Every thread owns a scanner over the SHARED rule set and writes its events (same vocabulary as yvdrive) into its own
@@ -157,6 +157,16 @@ static void* worker(void* arg)
       int ret;
       if (!strcmp(o->mode, "mem")) ret = yr_scanner_scan_mem(sc, datas[o->did].p, datas[o->did].n);
       else if (!strcmp(o->mode, "file")) ret = yr_scanner_scan_file(sc, datas[o->did].path);
+      else if (!strcmp(o->mode, "fd"))
+      {
+        /* the descriptor belongs to the caller: it must still be open after the scan (a scan that closes it lets another
+           thread's open() reuse the number while this thread still uses it) */
+        int fd = open(datas[o->did].path, O_RDONLY);
+        ret = yr_scanner_scan_fd(sc, fd);
+        int alive = fcntl(fd, F_GETFD) != -1;
+        int cr = close(fd);
+        if (!alive || cr != 0) emit(t, "{\"e\":\"FdLost\",\"alive\":%d,\"close\":%d}\n", alive, cr);
+      }
       else ret = yr_rules_scan_mem(rules, datas[o->did].p, datas[o->did].n, 0, scan_cb, t, o->timeout);
       emit(t, "{\"e\":\"ScanRet\",\"ret\":%d,\"ncb\":%d}\n", ret, t->cb_count);
     }
